@@ -7,7 +7,8 @@
       documented memory-only places;
   (c) buffer_input: window arithmetic of require()/discard()/size()/empty()/end()/bump*() (sa/bufinput.py, B6);
   (d) string_input, read_input, mmap_input, file_input, argv_input, istream_input, cstream_input add constructors only;
-  (e) the stdio reader and the mmap holder give an empty input for a zero-length file (under the ISO C / POSIX contracts of fread and mmap)."""
+  (e) the stdio reader and the mmap holder give an empty input for a zero-length file (under the ISO C / POSIX contracts of fread and mmap);
+  (f) single-unit, string, end-of-line and counted rules give the same result whether the input answers size( a ) with min( remaining, a ) or with all it has."""
 import collections
 from .. import core, units, bufinput, repo_units
 from . import c03
@@ -45,6 +46,53 @@ def iface_unit(path):
         if fn['q'].startswith(T + 'parse') or cls.startswith(T + 'parse_error') or cls.startswith(T + 'position'): continue
         walk(fn.get('body'), fn)
     return {k: sorted(v) for k, v in uses.items()}
+
+
+def buffering_independence(R):
+    """(f) I-buffer: size( a ) of an incremental input may answer anything between min( remaining, a ) and the remaining size.  Every single-unit, string,
+    end-of-line and counted rule is evaluated (sa/bits.py) twice over all inputs of the window - with the input answering the least and the most it may -
+    and the two partitions into ( result, consumed ) must coincide: a rule whose outcome depends on how much happened to be buffered gives different
+    results on buffer_input and memory_input (or with different chunk sizes)."""
+    from ..bits import Space, Interp, St, Opaque, Val, outcomes, Unmodelled, Blowup, CAP
+    from . import c06, c10
+    from ..exc import walk
+    db = core.DB(core.extract(list(units.POS)))
+    n = 0
+    for fn in db.order:
+        cls = fn.get('cls') or {}
+        if fn['n'] != 'match' or len(fn.get('params', [])) != 1 or c06.eol_of(fn) is None or not cls: continue
+        if walk(fn.get('body'), lambda x: x.get('k') == 'call' and x.get('cn') == 'match', []): continue
+        rule = (cls.get('s') or '').replace(T, '').replace('internal::', '').replace('result_on_found::', '')
+        parts = []
+        try:
+            for minimal in (False, True):
+                sp = c10.space('be'); it = Interp(db, sp); it.buffer_min = minimal
+                st = St(sp.full()); st.env[fn['params'][0]['id']] = Opaque('input')
+                part = {}
+                for kind, v, s in outcomes(it, fn, st):
+                    if kind == 'window': k = ('window', 0)
+                    elif kind == 'return' and isinstance(v, Val) and v.is_const(): k = ('ok', s.pos) if v.off else ('fail', 0)
+                    else: raise Unmodelled('path ends with ' + kind)
+                    part[k] = sp.OR(part.get(k), s.cond)
+                parts.append((sp, part))
+        except (Unmodelled, Blowup) as e:
+            R.broke('%s over eol::%s: %s' % (rule, c06.eol_of(fn), e)); continue
+        (sp, full), (sp2, mini) = parts
+        probs = []
+        for k1, c1 in full.items():
+            for k2, c2 in mini.items():
+                if k1 == k2 or 'window' in (k1[0], k2[0]): continue
+                # both spaces have the same variables in the same order: tuple sets are directly comparable
+                both = sp.AND(c1, c2)
+                if both is not None:
+                    show = lambda k: 'matches %d byte(s)' % k[1] if k[0] == 'ok' else 'fails'
+                    probs.append('on %s the rule %s when the input answers size() with everything it has, but %s when it buffers only what was asked for' % (c10.show_tuple(sp, sp.witness(both)), show(k1), show(k2)))
+        n += 1
+        R.ob(ok=not probs, key=('buffer', rule, c06.eol_of(fn)))
+        for pmsg in probs[:2]:
+            R.violation('I-buffer', 'rule %s' % rule, '%s over eol::%s: %s' % (rule, c06.eol_of(fn), pmsg), key=('buffer', rule, c06.eol_of(fn), pmsg[:80]))
+    R.cov['buffering_independence_rules'] = n
+    if n < 200: R.broke('only %d rules evaluated for buffering independence (floor 200)' % n)
 
 
 def empty_file_paths(db):
@@ -219,6 +267,8 @@ def run(tier):
         R.ob(ok=not probs, key=('empty', name))
         for pmsg in probs: R.violation('I-empty', 'internal/%s' % name.replace('::', '.hpp::', 1), pmsg, key=('empty', name, pmsg))
     if ne < 2: R.broke('only %d of the two file readers analysed for empty files' % ne)
+    # (f) buffering independence
+    buffering_independence(R)
     if found < 7: R.broke('only %d of the 7 derived input classes found' % found)
     R.assumptions = ['file-system and stream behaviour beyond the stated C library contracts (fread of zero bytes returns 0; mmap of length 0 fails) is not a property of this source and is not decided',
                      'readers honour their contract: write at most `length` bytes, return the number written, zero only at end of input',
